@@ -1,4 +1,4 @@
-from registry import H, kani_unit, verus_unit, PROPS, UNITS
+from registry import H, kani_unit, verus_unit, native_unit, PROPS, UNITS
 
 kani_unit("utils_writer", "winter-utils", "utils/core/src/serde/byte_writer.rs", "kani/utils_writer.rs", "serde::byte_writer", [
     H("utils_encoded_len_contract", ["C12"], ["utils::encoded_len"],
@@ -32,3 +32,9 @@ kani_unit("utils_reader", "winter-utils", "utils/core/src/serde/byte_reader.rs",
     H("utils_reader_canary_must_fail", ["C06"], [], "false claim: check_eor(1) always Ok", canary=True),
 ])
 
+
+native_unit("read_adapter_native", "winter-utils", "utils/core", "native/read_adapter_bounded.rs", ["C13"],
+            ["ReadAdapter::{read_u8, peek_u8, read_slice, read_array, check_eor, has_more_bytes, pop, read_exact, buffer_at_least}",
+             "ByteReader provided methods over ReadAdapter"],
+            "after every operation ReadAdapter returns what SliceReader returns on the same bytes (value or error kind); look-ahead is never pessimistic; no panic",
+            "NATIVE EXECUTION, not a proof: all operation sequences of length <= 3 over 19 operations on streams of 0..=12 bytes under 5 chunkings; 12000 (thorough: 60000) seeded sequences of 40 operations on streams of 0..=700 bytes under chunkings around the 256-byte internal buffer")
